@@ -21,6 +21,7 @@ def parseStep (j : Json) : Except String Step := do
     | "e" => return .enter (← natsOf a[1])
     | "x" => if h4 : a.size = 4 then return .xsiType (← a[1].getNat?) (← a[2].getNat?) (← optNat a[3]) else throw "x"
     | "c" => return .collect (← a[1].getNat?)
+    | "f" => if h3 : a.size = 3 then return .fields (← a[1].getNat?) (← a[2].getNat?) else throw "f"
     | "l" =>
       let ids ← (← a[1].getArr?).toList.mapM fun p => do
         let b ← p.getArr?
@@ -50,9 +51,17 @@ def parseSch (j : Json) : Except String Sch := do
   let base ← (← getArr j "base").toList.mapM fun w => do
     let a ← w.getArr?
     if h : a.size = 2 then return ((← a[0].getNat?), (← a[1].getNat?)) else throw "base"
+  let declTy := match j.getObjVal? "declTy" with
+    | .ok v => ((v.getArr?).toOption.getD #[]).toList.filterMap fun w =>
+        match w.getArr? with
+        | .ok a => if h : a.size = 2 then
+            match a[0].getNat?, a[1].getNat? with | .ok x, .ok y => some (x, y) | _, _ => none
+          else none
+        | _ => none
+    | _ => []
   let nsBase := match j.getObjVal? "nsBase" with | .ok v => (natsOf v).toOption.getD [] | _ => []
   let loadable := match j.getObjVal? "loadable" with | .ok v => (natsOf v).toOption.getD [] | _ => []
-  return { complex := cx, wtab := wid, base := base, pure := fun k => k, nsBase := nsBase, loadable := loadable }
+  return { complex := cx, wtab := wid, base := base, pure := fun k => k, declTy := declTy, nsBase := nsBase, loadable := loadable }
 
 def pairLt (a b : Nat × Nat) : Bool := a.1 < b.1 || (a.1 == b.1 && a.2 < b.2)
 def pairsJ (l : List (Nat × Nat)) : Json :=
@@ -73,6 +82,7 @@ def obsJ : Obs → Json
   | .scratch s => Json.mkObj [("scratch", Json.arr (s.map fun (n : Nat) => Json.num n).toArray)]
   | .ns a b => Json.mkObj [("ns", Json.arr #[Json.bool a, Json.bool b])]
   | .nsSeen b => Json.mkObj [("seen", Json.bool b)]
+  | .typing l => Json.mkObj [("typing", pairsJ l)]
 
 def resJ (r : Res) : Json :=
   Json.mkObj [
@@ -82,6 +92,7 @@ def resJ (r : Res) : Json :=
     ("sel", pairsJ r.sel),
     ("memo", natsJ (r.memo.map (·.1))),
     ("loaded", natsJ r.loaded),
+    ("cache", tripsJ (r.cache.map fun e => (e.1.1, e.1.2, e.2))),
     ("scratch", Json.arr (r.scratch.map fun (n : Nat) => Json.num n).toArray)]
 
 def modeOf : String → Mode
